@@ -262,7 +262,30 @@ def sweep(ctx: Ctx):
             lo, hi = impl(kind, 0.999e-12, al, True), impl(kind, 1.0e-12, al, True)
             if abs(lo - hi) > 1e-9 * abs(hi):
                 first.setdefault((kind, "switch"), (al, 1e-12, True, lo, hi))
+    # the value does not depend on how the radius is passed: float, NumPy scalar, 0-d array, list, 2-D array
+    nf = 0
+    for kind in ("s", "p"):
+        f = GC.coulomb_gaussian_s if kind == "s" else GC.coulomb_gaussian_p
+        for norm in (True, False):
+            for al in (0.03, 1.0, 300.0):
+                for r in (0.0, 1e-13, 1e-12, 0.37, 2.0, 11.0):
+                    ref = impl(kind, r, al, norm)
+                    for nm, form in (("float", float(r)), ("np.float64", np.float64(r)), ("0-d array", np.array(r)), ("list", [r, r]),
+                                     ("2-d array", np.array([[r], [r]])), ("float32", np.float32(r)), ("int", int(r)) if r == int(r) else ("float", r)):
+                        nf += 1
+                        try:
+                            got = np.asarray(f(form, al, normalized=norm), dtype=float).ravel()
+                            val = float(got[0])
+                            rr = float(np.asarray(form, dtype=float).ravel()[0])
+                            want = ref if rr == r else impl(kind, rr, al, norm)
+                            ok = bool(np.all(np.abs(got - want) <= 1e-12 * abs(want)))
+                        except Exception as e:  # noqa: BLE001
+                            ok, val, want = False, float("nan"), ref
+                            nm += f" ({type(e).__name__})"
+                        if not ok:
+                            first.setdefault((kind, f"input-form {nm}"), (al, r, norm, val, want))
     ctx.cov["sweep_points"] = n
+    ctx.cov["input_form_points"] = nf
     return first
 
 
@@ -307,6 +330,29 @@ def check_superposition_and_params(ctx: Ctx, data):
             ctx.fail("corr_superposition", f"superposition-far:{shift}", float(got[i]),
                      f"coulomb_potential with centres near {shift} at a point {P_[i].tolist()} close to a centre: {got[i]!r}, exact sum of the s-type potentials {exp[i]!r}",
                      {"points": P_.tolist(), "centers_s": cs.tolist(), "coeffs_s": fs.tolist(), "alphas_s": as_.tolist(), "expected": exp.tolist()})
+    # distinct centres that are close to each other compared with their distance from the origin stay distinct
+    for it, (shift, sep) in enumerate((([40.0, 35.0, 50.0], 1e-4), ([0.0, 0.0, 0.0], 3e-9), ([-300.0, 10.0, 0.5], 2e-3), ([1.0, 2.0, 3.0], 1e-6))):
+        for with_p in (False, True):
+            cs = np.array([shift, np.add(shift, [sep, 0.0, 0.0]), np.add(shift, [0.0, -sep, sep])])
+            fs = np.array([1.0, -0.8, 0.5])
+            as_ = np.array([0.5, 0.2, 0.1]) / sep ** 2
+            P_ = np.array([np.add(shift, [sep, 0.0, 0.0]), np.add(shift, [0.5 * sep, 0.2 * sep, 0.0]), np.add(shift, [0.0, -sep, sep]), np.add(shift, [3 * sep, sep, -sep])])
+            kw = dict(centers_p=cs[::-1].copy(), coeffs_p=fs * sep ** 2, alphas_p=as_) if with_p else {}
+            got = GC.coulomb_potential(P_, cs, fs, as_, normalized=True, **kw)
+            exp = np.zeros(len(P_))
+            for c, a, ce in zip(fs, as_, cs):
+                exp += c * GC.coulomb_gaussian_s(np.linalg.norm(P_ - ce, axis=1), a, normalized=True)
+            if with_p:
+                for c, a, ce in zip(kw["coeffs_p"], as_, kw["centers_p"]):
+                    exp += c * GC.coulomb_gaussian_p(np.linalg.norm(P_ - ce, axis=1), a, normalized=True)
+            ctx.case(("superposition-close", it, with_p))
+            if not np.allclose(got, exp, rtol=1e-10, atol=0):
+                i = int(np.argmax(np.abs(got - exp) / np.abs(exp)))
+                ctx.fail("corr_superposition", f"superposition-close:{shift}:sep={sep}:p={with_p}", float(got[i]),
+                         f"coulomb_potential with three distinct centres {sep} apart near {shift}: {got[i]!r} at {P_[i].tolist()}, "
+                         f"the coefficient-weighted sum of the single-centre functions is {exp[i]!r}",
+                         {"points": P_.tolist(), "centers_s": cs.tolist(), "coeffs_s": fs.tolist(), "alphas_s": as_.tolist(),
+                          **{k: v.tolist() for k, v in kw.items()}, "expected": exp.tolist()})
     from grid.utils import num2sym
     GC._ATOMIC_GAUSS_PARAMS_CACHE = None
     # the table returns equal values on every call, whatever the caller did with previously returned arrays
@@ -422,6 +468,8 @@ def run(ctx: Ctx):  # noqa: F811
         key = f"coulomb_gaussian_{kind}({'' if what == 'potential' else what + ':'}r={r}, alpha={al}, normalized={norm})"
         text = f"coulomb_gaussian_{kind} {what}: r={r}, alpha={al}, normalized={norm}: got {got}, expected {exp}"
         rp = {"reproduce": f"grid.coulomb.coulomb_gaussian_{kind}(np.array([{r}]), {al}, normalized={norm})", "expected": exp}
+        if what.startswith("input-form"):
+            rp["reproduce"] = f"grid.coulomb.coulomb_gaussian_{kind}(<r = {r} passed as {what[11:]}>, {al}, normalized={norm}) versus the same radius in a 1-D array"
         if gen_err is not None:
             cands.append((key, round(got, 9), text, rp))
             if ctx.is_known(key, round(got, 9)):
